@@ -1367,6 +1367,7 @@ impl<'a, SE: extensions::ShellExtensions> WordExpander<'a, SE> {
 
                 // We handle negative indexes as offsets from the end of the element, with -1
                 // referencing the last element.
+                let mut offset_out_of_range = false;
                 if expanded_offset < 0 {
                     expanded_offset += expanded_parameter_len;
 
@@ -1374,22 +1375,40 @@ impl<'a, SE: extensions::ShellExtensions> WordExpander<'a, SE> {
                     // We force the offset to the end of the array.
                     if expanded_offset < 0 {
                         expanded_offset = expanded_parameter_len;
+                        offset_out_of_range = true;
                     }
                 }
 
                 // Make sure the offset is within the bounds of the item.
+                if expanded_offset > expanded_parameter_len {
+                    offset_out_of_range = true;
+                }
                 let expanded_offset = min(expanded_offset, expanded_parameter_len);
 
                 let end_offset = if let Some(length) = length {
-                    let mut expanded_length = length.eval(self.shell, self.params, false).await?;
-                    if expanded_length < 0 {
-                        expanded_length += expanded_parameter_len;
+                    let expanded_length = length.eval(self.shell, self.params, false).await?;
+                    if expanded_length < 0 && offset_out_of_range {
+                        // Nothing to slice; the (negative) length is not even looked at.
+                        expanded_offset
+                    } else if expanded_length < 0 {
+                        // A negative length is a position counted back from the end of the
+                        // value (not a length); for a list of elements it is an error, as is
+                        // an end position that lies before the offset.
+                        let end = expanded_parameter_len.saturating_add(expanded_length);
+                        if expanded_parameter.from_array || end < expanded_offset {
+                            return Err(error::ErrorKind::CheckedExpansionError(std::format!(
+                                "{expanded_length}: substring expression < 0"
+                            ))
+                            .into());
+                        }
+
+                        end
+                    } else {
+                        let expanded_length =
+                            min(expanded_length, expanded_parameter_len - expanded_offset);
+
+                        expanded_offset + expanded_length
                     }
-
-                    let expanded_length =
-                        min(expanded_length, expanded_parameter_len - expanded_offset);
-
-                    expanded_offset + expanded_length
                 } else {
                     expanded_parameter_len
                 };
